@@ -7,6 +7,7 @@ in bursts; every wrapped body records the thread it runs on."""
 from __future__ import annotations
 
 import asyncio
+import itertools
 import threading
 import time
 import warnings
@@ -434,6 +435,75 @@ class SlowTarget:
         return await self._body(arg, "return")
 
 
+async def run_rebind_script(plan, r: Result):
+    """The proxy looks the attribute up on the wrapped object at every use: after the object's attribute has been replaced
+    (another function, a coroutine function instead of a plain one, a non-callable) the next use goes to the new one."""
+    from bellows.thread import EventLoopThread, ThreadsafeProxy
+
+    class Obj:
+        pass
+
+    target = Obj()
+    seen = []
+    target.handler = lambda arg: seen.append(("v1", arg, threading.get_ident())) and None
+
+    async def q1(arg):
+        return ("q1", arg)
+
+    async def q2(arg):
+        return ("q2", arg)
+
+    target.query = q1
+    owner = EventLoopThread()
+    await owner.start()
+    owner_ident = await owner.run_coroutine_threadsafe(_ident())
+    proxy = ThreadsafeProxy(target, owner.loop)
+    try:
+        order = plan["order"]
+        proxy.handler(1)
+        first = await asyncio.wait_for(proxy.query(1), 10)
+        await owner.run_coroutine_threadsafe(_ident())
+        for step in order:
+            if step == "fn":
+                target.handler = lambda arg: seen.append(("v2", arg, threading.get_ident())) and None
+                proxy.handler(2)
+                await owner.run_coroutine_threadsafe(_ident())
+                await owner.run_coroutine_threadsafe(_ident())
+                if ("v2", 2, owner_ident) not in seen:
+                    r.bad("C20:stale-function-after-rebinding", f"after the wrapped object's method was replaced the proxy ran {seen[-1:]}")
+                    return 0
+            elif step == "coro":
+                target.query = q2
+                got = await asyncio.wait_for(proxy.query(2), 10)
+                if got != ("q2", 2):
+                    r.bad("C20:stale-function-after-rebinding", f"coroutine method replaced; the proxy returned {got!r}")
+                    return 0
+            elif step == "kind":
+                async def now_async(arg):
+                    return ("async", arg)
+
+                target.handler = now_async
+                res = proxy.handler(3)
+                got = await asyncio.wait_for(res, 10) if asyncio.isfuture(res) or asyncio.iscoroutine(res) else res
+                if got != ("async", 3):
+                    r.bad("C20:coroutine-result-not-relayed", f"a method that became a coroutine function gave {got!r} through the proxy")
+                    return 0
+            elif step == "noncallable":
+                target.handler = 5
+                try:
+                    getattr(proxy, "handler")
+                    r.bad("C20:non-callable-not-refused", "attribute replaced by a non-callable value is still handed out")
+                    return 0
+                except TypeError:
+                    pass
+        if first != ("q1", 1) or ("v1", 1, owner_ident) not in seen:
+            r.bad("C20:harness:rebind-baseline", f"{first} {seen[:1]}")
+        return 1
+    finally:
+        owner.force_stop()
+        await asyncio.sleep(0)
+
+
 async def run_stop_script(plan, r: Result):
     """Calls in flight when the owner's thread is force-stopped: every caller must get an outcome (cancellation, the
     exception raised during clean-up, or the value) - none may be left waiting once the owner's loop is closed."""
@@ -516,6 +586,8 @@ def check(plan) -> Result:
     async def main():
         if plan["state"] == "stop-inflight":
             return await asyncio.wait_for(run_stop_script(plan, r), 25)
+        if plan["state"] == "rebind":
+            return await asyncio.wait_for(run_rebind_script(plan, r), 25)
         return await asyncio.wait_for(run_script(plan, r), 20)
 
     try:
@@ -568,6 +640,11 @@ stop_plans = st.fixed_dictionaries({
 
 
 def _worker(ctx, n):
+    for order in itertools.permutations(["fn", "coro", "kind", "noncallable"]):
+        if order[-1] != "noncallable" and order.index("noncallable") < order.index("kind") or order.index("noncallable") < order.index("fn"):
+            continue  # once the attribute is a non-callable the plain-method steps need it rebound first: keep it last-ish
+        plan = {"state": "rebind", "order": list(order)}
+        ctx.check(plan, check(plan))
     ctx.search(stop_plans, check, max_examples=max(n // 4, 6), shrink=False)
     ctx.search(plans(), check, max_examples=n, shrink=False)
     if ctx.classes.get("inconclusive-wall-guard", 0) > n // 2:
